@@ -5,7 +5,8 @@ header and the round trip are proved for the body-less classes, for submit_sm_re
 deliver_sm_resp, for the three bind requests and the three bind responses (13 of the 15 classes);
 for submit_sm / deliver_sm it is proved for messages without optional parameters whose text travels in
 short_message (`sm_round_trip_short`, codec and time round trips as explicit facts; `sm_round_trip_gsm`
-with none left); with optional parameters, message_payload or a UDH it is tied by the correspondence +
+with none left; `sm_round_trip_gsm_payload` for text in message_payload; `time_facts_*` discharge the
+time hypotheses); with optional parameters or a UDH it is tied by the correspondence +
 round-trip predicate (the model of their encoder and decoder is the one the driver runs).
 -/
 import SmppVerif.Lemmas.Pdu
@@ -105,6 +106,33 @@ theorem sm_round_trip_gsm (deliver : Bool) (m : Sm) (w : Lemmas.SmRead.SmRT m) (
                                else Msg.submitSm (Lemmas.SmRead.readBack m m.shortMessage [] .none .none encGsm)) :=
   Lemmas.SmRead.sm_round_trip_gsm deliver m w bytes e hp henc hpre hpay heh htext hne hlen hudhi htime hst
 
+/-- … and for text that travels in message_payload (given as payload, or moved there because it is longer
+    than 254 octets): default alphabet GSM 03.38, any text over the alphabet up to 65535 octets. -/
+theorem sm_round_trip_gsm_payload (deliver : Bool) (m : Sm) (w : Lemmas.SmRead.SmRT m) (bytes : List Nat) (e : Option Enc)
+    (hp : pdu encGsm (if deliver then Msg.deliverSm m else Msg.submitSm m) = .ok (bytes, e))
+    (henc : m.encoding = none) (hpre : m.encoded = []) (hshort : m.shortMessage = [])
+    (heh : m.errorHandling = .mode .strict)
+    (htext : Gsm.isGsmText m.messagePayload = true) (hne : m.messagePayload ≠ [])
+    (hlen : ∀ b, Gsm.encode .strict m.messagePayload = .ok b → b.length < 65536)
+    (hudhi : m.esmClass.toNat % 128 < 64)
+    (htime : m.schedule = .none ∧ m.validity = .none)
+    (hst : enumHas Gen.Enums.smppCommandStatus m.status = true) :
+    decode bytes encGsm = .ok (if deliver then Msg.deliverSm (Lemmas.SmRead.readBack m [] m.messagePayload .none .none encGsm)
+                               else Msg.submitSm (Lemmas.SmRead.readBack m [] m.messagePayload .none .none encGsm)) :=
+  Lemmas.SmRead.sm_round_trip_gsm_payload deliver m w bytes e hp henc hpre hshort heh htext hne hlen hudhi htime hst
+
+/-- The time hypotheses of `sm_round_trip_short` can be met for every absolute time of 2000–2099 with a
+    quarter-hour offset and for every relative time up to 63 weeks (C17): the string written is a C-octet
+    string and reads back to the same instant (tenths of a second / whole seconds). -/
+theorem time_facts_abs (d : Time.DateTime) (h : Lemmas.Time.WFabs d) :
+    ∃ ts, Time.toSmpp (.abs d) = .ok ts ∧ Lemmas.PduRead.CStrOK ts ∧
+      Time.fromSmpp ts = .ok (.abs { d with micro := d.micro / 100000 * 100000, offset := some (d.offset.getD 0) }) :=
+  Lemmas.SmRead.time_facts_abs d h
+
+theorem time_facts_rel (t : Time.TimeDelta) (h : Lemmas.Time.WFrel t) :
+    ∃ ts, Time.toSmpp (.rel t) = .ok ts ∧ Lemmas.PduRead.CStrOK ts ∧ Time.fromSmpp ts = .ok (.rel { t with micros := 0 }) :=
+  Lemmas.SmRead.time_facts_rel t h
+
 /-- Non-vacuity: a submit_sm_resp with a 3-character id, and a short GSM submit_sm whose PDU
     decodes to itself (kernel evaluation of the SubmitSm encoder and decoder of the model). -/
 example : pdu encGsm (.submitSmResp { seq := 7, status := 0, messageId := [97, 98, 99] })
@@ -125,3 +153,6 @@ end SmppVerif.Props.C03
 #print axioms SmppVerif.Props.C03.bindResp_round_trip
 #print axioms SmppVerif.Props.C03.sm_round_trip_short
 #print axioms SmppVerif.Props.C03.sm_round_trip_gsm
+#print axioms SmppVerif.Props.C03.sm_round_trip_gsm_payload
+#print axioms SmppVerif.Props.C03.time_facts_abs
+#print axioms SmppVerif.Props.C03.time_facts_rel
